@@ -859,6 +859,11 @@ func (p *Parser) parseType() (ast.Type, bool, error) {
 // parseSingleType parses a single type (without union handling) with optional type parameter context
 // This is used within union type parsing to avoid nested unions
 func (p *Parser) parseSingleType(typeParamNames []string) (ast.Type, error) {
+	if err := p.enterNesting(); err != nil {
+		return nil, err
+	}
+	defer p.leaveNesting()
+
 	var baseType ast.Type
 
 	// Check for function type: (T) -> U or (int, string) -> bool
@@ -975,6 +980,11 @@ func (p *Parser) parseSingleType(typeParamNames []string) (ast.Type, error) {
 // parseTypeWithContext parses a type annotation with optional type parameter context
 // The typeParamNames parameter contains names of type parameters in scope (for generic definitions)
 func (p *Parser) parseTypeWithContext(typeParamNames []string) (ast.Type, bool, error) {
+	if err := p.enterNesting(); err != nil {
+		return nil, false, err
+	}
+	defer p.leaveNesting()
+
 	var baseType ast.Type
 	required := false
 
@@ -1946,6 +1956,11 @@ func (p *Parser) parseRateLimit() (*ast.RateLimit, error) {
 
 // parseStatement parses a statement
 func (p *Parser) parseStatement() (ast.Statement, error) {
+	if err := p.enterNesting(); err != nil {
+		return nil, err
+	}
+	defer p.leaveNesting()
+
 	switch p.current().Type {
 	case QUESTION:
 		// ? validate_fn(args)                 -- validation assertion
@@ -2269,6 +2284,12 @@ func (p *Parser) parseReassignment() (ast.Statement, error) {
 
 // parseIfStatement parses an if statement: if condition { ... } else { ... }
 func (p *Parser) parseIfStatement() (ast.Statement, error) {
+	// `else if` chains recurse here directly
+	if err := p.enterNesting(); err != nil {
+		return nil, err
+	}
+	defer p.leaveNesting()
+
 	// Consume "if" keyword
 	_, err := p.expectIdent()
 	if err != nil {
@@ -2621,12 +2642,30 @@ func (p *Parser) parseSwitchStatement() (ast.Statement, error) {
 
 // parseExpr parses an expression with operator precedence
 func (p *Parser) parseExpr() (ast.Expr, error) {
+	if err := p.enterNesting(); err != nil {
+		return nil, err
+	}
+	defer p.leaveNesting()
+	return p.parsePipeExpr()
+}
+
+// enterNesting counts one level of recursive descent and refuses input nested
+// deeper than maxParseDepth. Every recursive cycle of the parser goes through
+// it (expressions, chained unary operators, nested statements/blocks, types and
+// patterns): recursion that bypassed the counter was bounded only by the Go
+// stack, whose exhaustion is a fatal error that cannot be recovered.
+func (p *Parser) enterNesting() error {
 	p.depth++
 	if p.depth > maxParseDepth {
-		return nil, fmt.Errorf("maximum nesting depth exceeded (%d levels)", maxParseDepth)
+		p.depth--
+		return fmt.Errorf("maximum nesting depth exceeded (%d levels)", maxParseDepth)
 	}
-	defer func() { p.depth-- }()
-	return p.parsePipeExpr()
+	return nil
+}
+
+// leaveNesting undoes enterNesting.
+func (p *Parser) leaveNesting() {
+	p.depth--
 }
 
 // parsePipeExpr parses pipe expressions (|>) with the lowest precedence
@@ -2802,6 +2841,11 @@ func (p *Parser) currentCommandDefaultBinaryOp() (ast.BinOp, int) {
 
 // parseUnary parses unary expressions (!, -)
 func (p *Parser) parseUnary() (ast.Expr, error) {
+	if err := p.enterNesting(); err != nil {
+		return nil, err
+	}
+	defer p.leaveNesting()
+
 	// Check for unary NOT operator
 	if p.check(BANG) {
 		tok := p.current()
@@ -5083,6 +5127,11 @@ func (p *Parser) parseMatchExpr() (ast.Expr, error) {
 
 // parsePattern parses a pattern for match expressions
 func (p *Parser) parsePattern() (ast.Pattern, error) {
+	if err := p.enterNesting(); err != nil {
+		return nil, err
+	}
+	defer p.leaveNesting()
+
 	switch p.current().Type {
 	case INTEGER:
 		// Literal integer pattern
